@@ -2,6 +2,7 @@
 import os, sys
 sys.path.insert(0, os.path.dirname(os.path.abspath(__file__)))
 import chain_common as cc
-WHAT = {"Atomic": "failed transactions or a refused block / proposal left a trace: roots differ from the node that never saw them, or version / state changed"}
+WHAT = {"Atomic": "failed transactions or a refused block / proposal left a trace: roots differ from the node that never saw them, or version / state changed",
+        "NoPathError": "after refused / failed inputs a node could not execute a block that the other paths accepted (its working state was damaged)"}
 def main(tier):
     return cc.run("C07", tier, set(WHAT), WHAT, ["G_ResetBeforeExec"])
